@@ -197,23 +197,39 @@ func ruleQRFormulas(c *Ctx) {
 		}
 		got := map[string]ssa.Instruction{}
 		var fmtVal ssa.Value
+		n.FoldTables = true
 		eachInstr(fn, func(b *ssa.BasicBlock, ins ssa.Instruction) {
 			call, ok := ins.(*ssa.Call)
 			if !ok || call.Common().Value != ssa.Value(fn.Params[2]) {
 				return
 			}
-			a := call.Common().Args
-			idx := "?"
-			if ld, ok := a[2].(*ssa.UnOp); ok {
-				if ia, ok := ld.X.(*ssa.IndexAddr); ok {
-					if k, ok := n.Norm(ia.Index).IsConst(); ok {
-						idx = fmt.Sprint(k)
-					}
-					fmtVal = ia.X
-				}
+			// a call inside constant-trip loops stands for one call per iteration
+			insts, ok := n.loopInstances(b)
+			if !ok {
+				c.Undecided(R7, "qr.drawFormatInfo/loop@"+c.P.Pos(call.Pos()), call.Pos(), "set call inside a loop whose iterations cannot be enumerated")
+				return
 			}
-			got[fmt.Sprintf("(%s,%s)<-bit%s", n.Norm(a[0]), n.Norm(a[1]), idx)] = call
+			a := call.Common().Args
+			for _, env := range insts {
+				n.env = append(n.env, env)
+				idx := "?"
+				if ld, ok := a[2].(*ssa.UnOp); ok {
+					if ia, ok := ld.X.(*ssa.IndexAddr); ok {
+						if k, ok := n.Norm(ia.Index).IsConst(); ok {
+							idx = fmt.Sprint(k)
+						}
+						fmtVal = ia.X
+					}
+				}
+				key := fmt.Sprintf("(%s,%s)<-bit%s", n.Norm(a[0]), n.Norm(a[1]), idx)
+				if _, dup := got[key]; dup {
+					key += "#again"
+				}
+				got[key] = call
+				n.env = n.env[:len(n.env)-1]
+			}
 		})
+		n.FoldTables = false
 		var keys []string
 		for k := range want {
 			keys = append(keys, k)
